@@ -149,6 +149,8 @@ def differential(res, rootA, rootB, kind, T, rng, n_edits, desc, sentinels=None)
             continue
         after = _snapshot_and_bytes(rootB)
         res.count("b_comparisons")
+        if res.evaluations % 1201 == 1:
+            res.sample({"type": T, "b_kind": kind, "mutation_of_A": e.path, "new_value": repr(e.value)[:80], "B_snapshot_and_bytes_unchanged": after == before})
         if after[0] != before[0] or after[1] != before[1]:
             d = snapshot.diff(before[0], after[0])
             where = snapshot.field_key(d[0][0]) if d else "bytes"
@@ -291,7 +293,7 @@ def run_shard(spec_, res):
         res.seen("types", T)
     if spec_["shard"] == 0:
         run_containers(res, spec_, rng)
-        res.sample({"type": "MultiSynth", "b_kind": "clone", "mutation": "/module/payload/vv_curve[17]", "observed": "B snapshot and bytes unchanged"})
+        pass
     for name, msg in monitors.take_failures():
         res.violation(f"C17:ambient:{name}", msg, {"monitor": name})
     res.exhaustive = True
